@@ -257,6 +257,8 @@ def entry_diffs(got, want, kind, defaults_on, ws=False, is_return=False, name=""
             out.append("default-invented-none")
         elif base in ZERO and type(g) is type(ZERO[base]) and g == ZERO[base]:
             out.append("default-invented-zero")
+        elif isinstance(g, str) and g == "":
+            out.append("default-invented-empty-str")  # argparse's zero value for a type it reads as str, seen after a later hop
         else:
             out.append("default-invented-other")
     return out
